@@ -96,7 +96,7 @@ def run(tier, selftest):
     fams = {}
     for c in cases:
         fams[c["id"]["fam"]] = fams.get(c["id"]["fam"], 0) + 1
-    if set(fams) != {"site", "chain", "member", "mixed", "noobj"}:
+    if set(fams) != {"site", "chain", "member", "mixed", "noobj", "alldangling"}:
         vlib.tool_error(f"vacuity: case families {fams}")
     rng = random.Random(vlib.seed() * 104729 + 10)
     rand_cases = []
